@@ -19,7 +19,11 @@ func InitGenesis(ctx sdk.Context, k keeper.Keeper, genState types.GenesisState) 
 			epoch.StartTime = ctx.BlockTime()
 		}
 
-		epoch.CurrentEpochStartHeight = ctx.BlockHeight()
+		// keep the exported start height of an epoch that is already running; an epoch
+		// that has not started counting yet starts at the current height
+		if !epoch.EpochCountingStarted {
+			epoch.CurrentEpochStartHeight = ctx.BlockHeight()
+		}
 
 		k.SetEpochInfo(ctx, epoch)
 	}
